@@ -482,6 +482,11 @@ func genC10() {
 			c10Norm(nodeString(c10Call(fd, ma, "owner.MemState.addSinglePAddr", 0)[0]))})
 	o.strs("remapLoopOrder", "allocateMultiplePagesWithGivenVAddrs: the calls of the loop body in source order", c10CallOrder(fd,
 		[]string{"a.pageTable.Update", "owner.MemState.addSinglePAddr", "device.allocateMultiplePages"}))
+	// ReleasePhysicalPage (the repair of the migration leak): the page goes to the device whose range holds it
+	fd = c10Func(fma, ma, "memoryAllocatorImpl", "ReleasePhysicalPage")
+	own, _ = c10Assign(fd, ma, "owner", 0)
+	o.strs("releasePhysicalPage", "ReleasePhysicalPage: the owning device; the page given to addSinglePAddr",
+		[]string{c10Norm(nodeString(own)), c10Norm(nodeString(c10Call(fd, ma, "owner.MemState.addSinglePAddr", 0)[0]))})
 	fd = c10Func(fma, ma, "memoryAllocatorImpl", "Free")
 	fr = c10For(fd, ma, 0)
 	v, ie := c10ForInit(fr, ma)
